@@ -871,7 +871,117 @@ func TestC06(t *testing.T) {
 	multiHit(R)
 	unbuildable(R)
 	headRequests(R)
+	largeBodies(R)
+	lazyJSONTargets(R)
 	R.Finish(t)
+}
+
+type oneRT struct {
+	body *fakeBody
+	reqs []http.Header
+	urls []string
+}
+
+func (rt *oneRT) RoundTrip(req *http.Request) (*http.Response, error) {
+	rt.reqs = append(rt.reqs, req.Header.Clone())
+	rt.urls = append(rt.urls, req.URL.String())
+	var body io.ReadCloser = io.NopCloser(strings.NewReader("ok"))
+	if rt.body != nil {
+		body = rt.body
+	}
+	return &http.Response{Status: "200 OK", StatusCode: 200, Proto: "HTTP/1.1", ProtoMajor: 1, ProtoMinor: 1, Header: http.Header{}, Body: body, ContentLength: -1, Request: req}, nil
+}
+
+// largeBodies: bodies far beyond max-body (and beyond any drain limit one might think of): read to the
+// end and closed; a read error far into the part that is only drained is still an error of the exchange.
+func largeBodies(R *ev.Run) {
+	for _, size := range []int{300000, 1 << 20, 3 << 20} {
+		for _, mb := range []int64{-1, 0, 16} {
+			for _, fault := range []int{-1, size - 1, 280000} {
+				if fault >= size {
+					continue
+				}
+				lg := &bodyLog{}
+				rt := &oneRT{body: &fakeBody{data: make([]byte, size), fault: fault, log: lg}}
+				atk := vegeta.NewAttacker(vegeta.Client(&http.Client{Transport: rt}), vegeta.Workers(1), vegeta.MaxWorkers(1), vegeta.MaxBody(mb))
+				var rs []*vegeta.Result
+				for r := range atk.Attack(vegeta.NewStaticTargeter(vegeta.Target{Method: "GET", URL: "http://h.example/large"}), nHits{1}, 0, "large") {
+					rs = append(rs, r)
+				}
+				R.Eval(1)
+				R.Trans(1)
+				R.Distinct(fmt.Sprint("large", size, mb, fault))
+				R.Part("configurations", "large-body", 1)
+				ctx := map[string]any{"body_bytes": size, "max_body": mb, "read_error_after": fault}
+				if len(rs) != 1 {
+					R.Violation("large:results.count", ctx)
+					continue
+				}
+				r := rs[0]
+				lg.mu.Lock()
+				delivered, sawEnd, closes := lg.delivered, lg.sawEnd, lg.closes
+				lg.mu.Unlock()
+				ctx["got"] = fmt.Sprintf("code %d error %q body %d bytes; %d of %d bytes read, end seen %v, closed %d times", r.Code, r.Error, len(r.Body), delivered, size, sawEnd, closes)
+				wantRead := size
+				if fault >= 0 {
+					wantRead = fault
+				}
+				switch {
+				case closes != 1:
+					R.Violation("large:body.close-count", ctx)
+				case delivered != wantRead || !sawEnd:
+					R.Violation("large:body.not-read-to-its-end", ctx)
+				case fault >= 0 && (r.Error == "" || r.Code != 0):
+					R.Violation("large:result.failed-without-error", ctx)
+				case fault < 0 && (r.Error != "" || r.Code != 200):
+					R.Violation("large:result.completed-with-error", ctx)
+				case fault < 0 && mb >= 0 && int64(len(r.Body)) != mb, fault < 0 && mb < 0 && len(r.Body) != size:
+					R.Violation("large:result.body-length", ctx)
+				}
+			}
+		}
+	}
+}
+
+// lazyJSONTargets: a lazily read JSON targets stream (whose targeter merges into the header map of the
+// Target it is given) feeding one worker: every request carries exactly its own target's headers.
+func lazyJSONTargets(R *ev.Run) {
+	for n := 2; n <= 4; n++ {
+		var sb strings.Builder
+		for i := 0; i < n; i++ {
+			extra := ""
+			if i%2 == 0 {
+				extra = fmt.Sprintf(`,"x-lower-%d":["l%d"]`, i, i)
+			}
+			fmt.Fprintf(&sb, `{"method":"GET","url":"http://h.example/j%d","header":{"Authorization":["Bearer %d"]%s}}`+"\n", i, i, extra)
+		}
+		rt := &oneRT{}
+		atk := vegeta.NewAttacker(vegeta.Client(&http.Client{Transport: rt}), vegeta.Workers(1), vegeta.MaxWorkers(1))
+		for range atk.Attack(vegeta.NewJSONTargeter(strings.NewReader(sb.String()), nil, http.Header{"X-Default": {"d"}}), nHits{uint64(n)}, 0, "lazy") {
+		}
+		R.Eval(1)
+		R.Trans(n)
+		R.Distinct(fmt.Sprint("lazyjson", n))
+		R.Part("configurations", "lazy-json-targets", 1)
+		for k, h := range rt.reqs {
+			var i int
+			fmt.Sscanf(rt.urls[k], "http://h.example/j%d", &i)
+			want := http.Header{"Authorization": {fmt.Sprintf("Bearer %d", i)}, "X-Default": {"d"}}
+			if i%2 == 0 {
+				want[fmt.Sprintf("x-lower-%d", i)] = []string{fmt.Sprintf("l%d", i)}
+			}
+			got := h.Clone()
+			got.Del("X-Vegeta-Seq")
+			got.Del("X-Vegeta-Attack")
+			if hdrStr(got) != hdrStr(want) {
+				R.Violation("lazy-json:request.header", map[string]any{"targets": n, "request": rt.urls[k], "got": hdrStr(got), "want": hdrStr(want)})
+				break
+			}
+		}
+		if len(rt.reqs) != n {
+			R.Violation("lazy-json:requests.count", map[string]any{"targets": n, "requests": len(rt.reqs)})
+		}
+	}
 }
 
 // headRT answers like net/http does for a HEAD request: the advertised
